@@ -322,6 +322,8 @@ def run_live(sh, res):
     V = {}
     base = tempfile.mkdtemp(prefix='verif-c20l-', dir=scratch_dir())
     nev = 0
+    # hostile well-framed frames too: whatever the decoders hand to the handler must end up as one well-formed record
+    fz = S.fuzz_alphabet(rng, 40)
     try:
         for i in range(sh['n']):
             if budget.expired():
@@ -338,8 +340,9 @@ def run_live(sh, res):
                     V.setdefault(('restart-exits', 'live'), dict(kind='restart-exits', features=['live-session'], detail='restart %d of a live agent on its own log called sys.exit()' % restart,
                                                                  replay=dict(live=True)))
                     break
-                evs = ['TICK', 'ACCEPT', 'OPEN', 'KA'] + [rng.choice(['UPD1', 'UPD', 'RR', 'KA', 'TICK', 'NOTI_CEASE', 'PEERCLOSE', 'ACCEPT', 'OPEN', 'OPEN_nocap', 'REFUSE', 'UPD_unknown'])
-                                                          for _ in range(25)]
+                evs = ['TICK', 'ACCEPT', 'OPEN', 'KA'] + [rng.choice(['UPD1', 'UPD', 'RR', 'KA', 'TICK', 'NOTI_CEASE', 'PEERCLOSE', 'ACCEPT', 'OPEN', 'OPEN_nocap', 'REFUSE', 'UPD_unknown',
+                                                                      'UPD_unkfam', 'UPD_malformed', 'OPEN', 'KA'] + fz)
+                                                          for _ in range(40)]
                 for e in evs:
                     if e == 'UPD_unknown':
                         if w.live():
@@ -351,7 +354,7 @@ def run_live(sh, res):
                     probs, nl, last, nf = audit(root)
                     for pk, pd in probs:
                         V.setdefault((pk, 'live'), dict(kind=pk, features=['live-session', 'event:' + S.parse_event(e)[0]], detail=pd + ' (live session, after %s)' % e,
-                                                        replay=dict(live=True, events=evs)))
+                                                        replay=dict(live=True, events=evs, fuzz={k: S.MSGS[k][0].hex() for k in evs if k.startswith('FZ')})))
                     if probs:
                         break
                 close_handler(w.handler)
